@@ -452,3 +452,30 @@ PROPS["C08"] = dict(
     assumptions=["fake objects (a header naming the type in front of zeroed bytes) stand in for instances of types "
                  "whose constructors need arguments; no method is ever invoked on them except counting stubs"],
 )
+
+PROPS["C13"] = dict(
+    harness="c13_threads.c", unity=["Exception.c"], level="exploration",
+    technique="runtime race detection + monitors: gcc ThreadSanitizer over 2-16 Cello threads running container, "
+              "allocation/collection, exception and thread-local workloads, a Mutex-guarded non-atomic counter and a "
+              "join-published array; per-thread digests vs solo runs, owner-keyed finalisation ledger, in-section "
+              "flag; also run uninstrumented at -O2",
+    level_text="Exploration: repeated trials with 2,3,4,8,12,16 threads released by a barrier with injected "
+               "yields/sleeps between Cello calls; ThreadSanitizer decides the ordering part by happens-before "
+               "(missing synchronisation is reported whether or not the bad interleaving occurred), the value "
+               "oracles (digest equals solo run, no foreign finalisation, counter == sections, flag never seen set, "
+               "published values visible after join) run in the same executions. The evidence counts the distinct "
+               "lock-acquisition orders observed (they are part of each case's identity).",
+    level_note="TSan is suppressed only inside Type_Instance, Type_Scan and Type_Of (three idempotent lazy writes; "
+               "results checked by C08). Schedules are sampled, not enumerated. c_int(thread)/running(thread) are "
+               "not called concurrently with thread start-up (not part of the property).",
+    quick=[("tsan", 4, 5), ("plain", 4, 10)],
+    thorough=[("tsan", 8, 40), ("plain", 8, 150)],
+    timeout={"quick": 900, "thorough": 5400},
+    floors={"quick": {"digests_compared_with_solo_run": 100, "mutex_sections": 10000,
+                      "mutex_handovers_between_threads": 1000, "trylock_sections_that_had_to_wait": 10,
+                      "join_publish_threads": 100}},
+    rule="case = one trial: N threads (2..16) each run a seeded workload alone and then together, then 50-200 "
+         "Mutex sections each, then a join-publish round; distinct = hash including the observed lock acquisition "
+         "order; non-trivial = the lock changed hands between threads at least once and all digests matched",
+    assumptions=["the Function object and the argument objects passed to a Thread outlive it (harness rule)"],
+)
